@@ -136,7 +136,7 @@ func (g *histGen) mod(t *rapid.T, si int, seq uint32, ev *Ev) (model.Op, bool) {
 				return op, false
 			}
 		}
-		prec := uint32(rapid.IntRange(1, 255).Draw(t, "prec"))
+		prec := genPrec32(t)
 		var ql []uint32
 		if len(s.pdrs) > 0 {
 			ql = append(ql, s.pdrs[0].QERs...)
@@ -246,7 +246,7 @@ func genC03(ev *Ev) func(t *rapid.T) model.Case {
 	return func(t *rapid.T) model.Case {
 		g := &histGen{nPeers: rapid.IntRange(1, 3).Draw(t, "peers")}
 		g.assoc = make([]bool, g.nPeers+1)
-		g.knobs = ruleKnobs{maxPairs: 2, choose: true, ueAlloc: true, sdf: true, qers: true, buffer: true, ranges: true, gbr: true, accessN3: accessIP(),
+		g.knobs = ruleKnobs{maxPairs: 2, choose: true, ueAlloc: true, sdf: true, qers: true, buffer: true, ranges: true, gbr: true, accessN3: accessIP(), prec32: true,
 			sessQER: !excluded("sessQER")}
 		var ops []model.Op
 		for p := 0; p < g.nPeers; p++ {
